@@ -304,6 +304,21 @@ def run(res, tier):
             if arm_first is not None:
                 first_c += (A.strip_casts(arm_first).get('v') or 0) - (A.strip_casts(arm_other).get('v') or 0)
                 always_c += (A.strip_casts(arm_other).get('v') or 0)
+        elif t['k'] == 'DeclRefExpr' and t.get('d') is not None:
+            # the same choice made with if/else into a local: two constant assignments, one where nothing has been written yet, one where something has
+            asg = [w for w in g.walk() if w['k'] == 'BinaryOperator' and w.get('op') == '=' and A.strip_casts(w['ch'][0]).get('d') == t['d'] and A.strip_casts(w['ch'][1]).get('v') is not None]
+            vf = vo = None
+            for w in asg:
+                for (cn2, t2) in G.atoms_at(g, w):
+                    z = A.zero_test(cn2, t2)
+                    if z is not None and z[0].is_call() and (z[0].get('q') or '').endswith('::GetNumBytesWritten'):
+                        if z[1]:
+                            vf = A.strip_casts(w['ch'][1])['v']
+                        else:
+                            vo = A.strip_casts(w['ch'][1])['v']
+            if len(asg) == 2 and vf is not None and vo is not None:
+                first_c += vf - vo
+                always_c += vo
     W = {'WriteInt32': 4, 'WriteInt16': 2, 'WriteInt64': 8, 'WriteByte': 1, 'WriteInt8': 1}
     always_w, first_w = 0, 0
     for c in g.walk():
